@@ -1277,6 +1277,9 @@ func moduleReach(c *core.Ctx, root *ssa.Function) []*ssa.Function {
 			var targets []*ssa.Function
 			if sc := an.StaticCallee(cc); sc != nil {
 				targets = []*ssa.Function{sc}
+			} else if sc := an.InvokeConcrete(cc); sc != nil {
+				// an interface call on a value whose one dynamic type is in view
+				targets = []*ssa.Function{sc}
 			} else if fs, ok := resolve(cc.Value, b); ok && !cc.IsInvoke() {
 				targets = fs
 			} else {
